@@ -125,7 +125,7 @@ class TransposeChromatic(NoteTransformer):
         self.n = n
 
     def action(self, note, chord=None, **kwargs):
-        if note.is_relative:
+        if note.is_relative or not note.is_note:
             return note.copy()
 
         dict_pitches = chord.pitch_dict
